@@ -125,8 +125,13 @@ mutual
         | error f => rw [hc] at hx; simp at hx
         | ok v =>
           rw [hc] at hx
-          simp only [Except.ok.injEq] at hx; subst hx
-          simpa using he.set_other n v
+          simp only [] at hx
+          cases hcst : castTo C.N ty v with
+          | error f => rw [hcst] at hx; simp at hx
+          | ok v' =>
+            rw [hcst] at hx
+            simp only [Except.ok.injEq] at hx; subst hx
+            simpa using he.set_other n v'
     | .set x e, E, E', t, t', h, he, hx => by
       simp only [emp, Option.some.injEq] at h; subst h
       simp only [exec] at hx
